@@ -229,7 +229,7 @@ func (s *Server) getQueueCandidates(d *commandDetails) []*Hook {
 	})
 	// look for candidates that might "cross" geofences
 	if d.old != nil && d.obj != nil && s.hookCross.Len() > 0 {
-		r1, r2 := d.old.Rect(), d.obj.Rect()
+		r1, r2 := finiteRect(d.old.Geo()), finiteRect(d.obj.Geo())
 		s.hookCross.Search(
 			[2]float64{
 				math.Min(r1.Min.X, r2.Min.X),
@@ -249,7 +249,7 @@ func (s *Server) getQueueCandidates(d *commandDetails) []*Hook {
 	}
 	// look for candidates that overlap the old object
 	if d.old != nil {
-		r1 := d.old.Rect()
+		r1 := finiteRect(d.old.Geo())
 		s.hookTree.Search(
 			[2]float64{r1.Min.X, r1.Min.Y},
 			[2]float64{r1.Max.X, r1.Max.Y},
@@ -263,7 +263,7 @@ func (s *Server) getQueueCandidates(d *commandDetails) []*Hook {
 	}
 	// look for candidates that overlap the new object
 	if d.obj != nil {
-		r1 := d.obj.Rect()
+		r1 := finiteRect(d.obj.Geo())
 		s.hookTree.Search(
 			[2]float64{r1.Min.X, r1.Min.Y},
 			[2]float64{r1.Max.X, r1.Max.Y},
